@@ -97,12 +97,24 @@ class VTuple(V):
         return f"VTuple({self.items})"
 
 
+class _Clock:
+    """Global logical clock: containers are stamped at creation, states at every fork. A container older than the
+    latest fork of the state that mutates it may be shared with a sibling path and is copied first (copy-on-write)."""
+    t = 0
+
+    @classmethod
+    def tick(cls):
+        cls.t += 1
+        return cls.t
+
+
 class VList(V):
     """Python list with a concrete number of elements (mutable, by reference)."""
-    __slots__ = ("items",)
+    __slots__ = ("items", "born")
 
     def __init__(self, items):
         self.items = list(items)
+        self.born = _Clock.tick()
 
 
 class VSeq(V):
@@ -170,10 +182,11 @@ class VObj(V):
 
 class VDict(V):
     """dict with concrete string keys (mutable, by reference)."""
-    __slots__ = ("d",)
+    __slots__ = ("d", "born")
 
     def __init__(self, d):
         self.d = dict(d)
+        self.born = _Clock.tick()
 
 
 class VFunc(V):
